@@ -53,6 +53,7 @@ func childMain() {
 	}
 	out := bufio.NewWriter(os.Stdout)
 	start, _ := strconv.Atoi(os.Getenv("C12_START"))
+	failures := 0
 	for i := start; i < len(j.Cases); i++ {
 		c := j.Cases[i]
 		if c.World == nil && c.WorldIdx > 0 {
@@ -64,6 +65,16 @@ func childMain() {
 		b, _ := json.Marshal(childResult{Info: info, Fail: f})
 		fmt.Fprintf(out, "END %d %s\n", i, b)
 		out.Flush()
+		if f != nil {
+			if _, known := vlib.IsKnown("C12", f.Key); !known {
+				failures++
+			}
+		}
+		if failures >= 3 {
+			// the parent stops at the first unknown failure; on a broken tree every further case can
+			// cost seconds (gigabyte allocations), so do not grind through thousands of them
+			break
+		}
 	}
 	fmt.Fprintln(out, "DONE")
 	out.Flush()
@@ -72,7 +83,7 @@ func childMain() {
 
 // runIsolated evaluates the cases in child processes and returns one result per case.  A case
 // during which the child died gets a Failure with key child-died@<path>; the remaining cases
-// continue in a fresh child.
+// continue in a fresh child (at most three deaths; the first one already fails the test).
 func runIsolated(worlds []*World, cases []RejectCase) ([]childResult, error) {
 	dir := os.Getenv("VERIF_SCRATCH")
 	if dir == "" {
@@ -108,8 +119,12 @@ func runIsolated(worlds []*World, cases []RejectCase) ([]childResult, error) {
 			self = s
 		}
 	}
-	start := 0
-	for start < len(cases) {
+	start, deaths := 0, 0
+	limit := 4 * time.Minute
+	if vlib.Thorough() {
+		limit = 15 * time.Minute
+	}
+	for start < len(cases) && deaths < 3 {
 		cmd := exec.Command(self)
 		cmd.Env = append(os.Environ(), "VERIF_CHILD=c12-cases", "C12_JOB="+f.Name(), "C12_START="+strconv.Itoa(start), "VERIF_FRAG=", "GOTRACEBACK=single")
 		var stdout, stderr bytes.Buffer
@@ -123,7 +138,7 @@ func runIsolated(worlds []*World, cases []RejectCase) ([]childResult, error) {
 		timedOut := false
 		select {
 		case werr = <-done:
-		case <-time.After(15 * time.Minute):
+		case <-time.After(limit):
 			_ = cmd.Process.Kill()
 			werr = <-done
 			timedOut = true
@@ -183,6 +198,7 @@ func runIsolated(worlds []*World, cases []RejectCase) ([]childResult, error) {
 		}
 		results[inflight] = childResult{Fail: &vlib.Failure{Key: key, Msg: msg}}
 		start = inflight + 1
+		deaths++
 	}
 	return results, nil
 }
